@@ -127,7 +127,7 @@ class Ctx:
         """run a driver; returns (rc, stdout, summary dict from the last SUMMARY line)"""
         t = time.time()
         rc, out, err = self.run([binpath] + [str(a) for a in args], timeout, env=env)
-        if rc == 2 or "HARNESS-ERROR" in err:
+        if rc == 97 or "HARNESS-ERROR" in err:
             raise Infra("driver error: %s %s\n%s" % (binpath, args, (out + err)[-4000:]))
         summ = {}
         for line in out.splitlines():
